@@ -43,6 +43,12 @@ CLAIMED = {
              'each path ends in z3 obligations against the exact integer ceiling / sexagesimal oracle, so the claim holds for all values in the bounds. The float part is closed by an LRA lemma.',
         note='Assumes CPython formats floats with correct rounding (\'%.8f\' denotes round(x*1e8)), int(x) truncates and x-int(x) is exact for 0<=x<2**53 (IEEE facts), and that the string proxies agree with '
              'CPython (validated per path on a solver witness). repr(float) is not modelled (would make the run inconclusive).'),
+    'C13': dict(
+        category='model_checking', design_ref='DESIGN.md section 3 C13',
+        technique='symbolic execution of the real age-group functions on symbolic dates (z3 linear integer arithmetic); dateutil/datetime by validated LIA contracts; rule text as an independent LIA oracle',
+        text='Both dates are solver variables over 1900-2100 (every year, month, day, leap years included), so each obligation covers all ~10^9 date pairs of the bound at once; '
+             'rule-text equality (TF, 1 Jan-30 Sep), masters bands, option effects, ISO-string equivalence and birth-date monotonicity (two symbolic births) are z3 queries per path.',
+        note='Trusted: the relativedelta/date/parse contracts (the arithmetic core is compared with the real dateutil on 88k-1.5M date pairs each run), z3 LIA. XC/ROAD rule-text equality is not asserted (the property restricts it to TF).'),
 }
 
 NOT_APPLICABLE = {
